@@ -4,6 +4,23 @@
 // C16, C18).  Written from the lexical grammar: which construct starts at the next byte, where
 // its first terminator lies, what the event exposes, how far the position moves.
 // ---------------------------------------------------------------------------------------------
+/// the call returned something after which reading goes on: an event other than Eof, or an ill-formedness error
+pub open spec fn continues<'i>(r: core::result::Result<Event<'i>, Error>) -> bool {
+    (r is Ok && !(r matches Ok(Event::Eof))) || (r matches Err(Error::IllFormed(_)))
+}
+/// representation invariant of the event types: the name is a prefix of the content
+spec fn ev_wf<'i>(ev: Event<'i>) -> bool {
+    match ev {
+        Event::Start(e) | Event::Empty(e) => e.name_len <= e.buf@.len(),
+        Event::Decl(e) => e.content.name_len <= e.content.buf@.len(),
+        Event::PI(e) => e.content.name_len <= e.content.buf@.len(),
+        _ => true,
+    }
+}
+/// ranking function of the reader: strictly decreases with every call that `continues`
+pub open spec fn measure(st: ReaderState, rem: Seq<u8>) -> int {
+    2 * rem.len() + (if st.state is InsideEmpty { 1int } else { 0int })
+}
 /// state after the source has delivered `n` more bytes of a markup construct
 pub open spec fn mid(pre: ReaderState, n: int) -> ReaderState {
     ReaderState { state: ParseState::InsideText, offset: (pre.offset + n) as u64, ..pre }
@@ -22,6 +39,10 @@ spec fn markup_post<'i>(pre: ReaderState, rem: Seq<u8>, post: ReaderState, rem2:
     // positions never decrease, the error position is never ahead of the position (C03)
     &&& pre.offset <= post.offset && post.last_error_offset <= post.offset
     &&& (post.state is InsideText || post.state is InsideEmpty) && (post.state is InsideEmpty ==> post.stack().len() > 0)
+    // every event and every recoverable error consumes input (C03: the number of calls is linear in the input)
+    &&& continues(r) ==> rem2.len() < rem.len() && post.offset + rem2.len() <= pre.offset + rem.len()
+    // events handed out are well-formed values: their accessors cannot panic (C03)
+    &&& r matches Ok(ev) ==> ev_wf(ev)
     &&& if fault {
             // an I/O error: no event, position inside the construct
             &&& pre.offset <= post.offset <= pre.offset + rem.len()
